@@ -43,4 +43,10 @@ def totalError2 (d b g : Rat) : Except Err Rat :=
   if g < 0 then .error .ValueError
   else .ok (b * b + (if g ≠ 0 then max (d / g) 0 else 0))
 
+/-- unit of a statistic of pixel values in data unit `u` (none = unit-less data): `u ^ power`, represented as (unit id, power) -/
+def statUnit (dataUnit : Option Nat) (power : Nat) : Option (Nat × Nat) := dataUnit.map fun u => (u, power)
+
+/-- how a statistic scales when every pixel value is multiplied by `c`: location / scale statistics by `c`, variances by `c²` -/
+def scalesWith (power : Nat) (c : Rat) : Rat := c ^ power
+
 end PhotVerif.Model.Units
